@@ -24,7 +24,7 @@ LIBM2 = {'pow', 'atan2', 'hypot', 'fmod'}
 
 VERIF_API = {'verif_nondet_f64', 'verif_nondet_f32', 'verif_nondet_u32', 'verif_nondet_u64', 'verif_nondet_bool',
              'verif_assume', 'verif_assert', 'verif_reach', 'verif_observe_u64', 'verif_observe_f64',
-             'verif_throw_hook', 'verif_known_region'}
+             'verif_throw_hook', 'verif_known_region', 'verif_approx_eq', 'verif_close'}
 
 
 class Unsupported(Exception):
